@@ -54,7 +54,7 @@ def build_registry(mods):
         for c in m.contracts:
             reg.add_contract(c)
         for f, mm in m.models.items():
-            reg.models[f] = mm
+            reg.scoped_models.setdefault(m.prop, {})[f] = mm
         for ls in m.loops:
             reg.loops[(ls.qname, ls.ordinal)] = ls
     from contracts import common
